@@ -73,6 +73,7 @@ Fixpoint nesting_ok (ts : list tok) (stack : list string) : bool :=
   match ts with
   | [] => match stack with [] => true | _ => false end
   | TStart n _ :: r => nesting_ok r (n :: stack)
+  | TRawStart raw :: r => nesting_ok r (take_while (fun c => negb (is_xml_ws c)) raw :: stack)
   | TEnd n :: r => match stack with m :: st => (String.eqb n m && nesting_ok r st)%bool | [] => false end
   | TComment c :: r => (comment_ok c && nesting_ok r stack)%bool
   | _ :: r => nesting_ok r stack
@@ -84,6 +85,10 @@ Definition transform_doc (cfg : pcfg) (seed border : Z) (scale : f32) (input : s
   | None => Err EParse
   | Some toks =>
       if negb (nesting_ok toks []) then Err EParse else
+      (* a real SVG document passes through token by token (tags whose attributes cannot be unescaped included) *)
+      if is_real_svg toks then Ok (write_to (map conv toks)) else
+      (* elsewhere a tag SvgElement::try_from rejects fails the document (tagify_events) *)
+      if existsb (fun t => match t with TRawStart _ | TRawEmpty _ => true | _ => false end) toks then Err EDocument else
       match build_doc FN toks with
       | None => Err EParse
       | Some ns =>
